@@ -189,7 +189,7 @@ var manuf = ev.NewCheck("C18", "manufacturer",
 	"rapid: manufacturer/device/model ids, 3-byte address, data-set payload of 1..512 7-bit bytes or 3-byte request size; oracle = independent byte layout + checksum sum + Parse(SysEx(v))==v + every/sampled single-byte corruption of address|payload|checksum must be rejected; non-trivial = checksum byte != 0; distinct by case hash",
 	genManuf, runManuf)
 
-func TestPropManufacturer(t *testing.T) { manuf.Rapid(t, 1500, 40000) }
+func TestPropManufacturer(t *testing.T) { manuf.Rapid(t, 4000, 40000) }
 
 // GoToCase / MsgCase: machine control.
 type GoToCase struct{ Device, Hour, Minute, Second, Frame, SubFrame byte }
